@@ -4,7 +4,7 @@ from ..gen import G, Qty
 from ..common import run_apps, app, out_of, sig, base_files, summarize
 from fractions import Fraction
 
-THEOREMS = []
+THEOREMS = ['set_keys_nodup', 'ofNodes_keys_nodup', 'resolve_any_order', 'run_order_independent', 'sorted_totals_order_irrelevant', 'sorted_elements_order_irrelevant']
 LEVEL = 'proof'
 RULE = ('every command on inputs biased towards what map order could expose: >= 3 unresolved foods, tied quantities, tied element values, '
         'recipe chains around the depth limit; each invocation repeated R times in-process (thorough: also as separate processes); '
